@@ -3,6 +3,7 @@
 package engalloc
 
 import (
+	"encoding/binary"
 	"encoding/json"
 	"errors"
 	"fmt"
@@ -51,6 +52,17 @@ func (allocEngine) Gen(rng *rand.Rand, tier string, i int) any {
 		j := 24 - (i/3000)%9
 		c.Probe = fmt.Sprintf("v6-capacity-%d", j)
 		c.Start, c.PoolLen, c.Page = "2001:db8::", 64-(j+1), 64
+		return c
+	}
+	if rng.Intn(250) == 0 {
+		// mass release: a large IPv4 range is filled completely, most of it is released in one go (no
+		// allocation in between: a lease database purged, a site renumbered), then it is filled again:
+		// exactly as many allocations as there were releases succeed
+		c.Probe = "v4-mass-release"
+		c.V4 = true
+		n := uint32([]int{66000, 70000, 131072 + 17, 100000, 65537 + rng.Intn(3000)}[rng.Intn(5)])
+		start := uint32(0x0a000000) + uint32(rng.Intn(1<<20))
+		c.Start, c.End = u32ip(start).String(), u32ip(start+n-1).String()
 		return c
 	}
 	if rng.Intn(400) == 0 {
@@ -172,6 +184,11 @@ type allocRun struct {
 	polluted                                      bool // a C06 violation happened: the model no longer knows the state
 	sawRealloc, sawFull, sawFailFree, sawHintFree bool
 	classes                                       map[string]bool
+	// nb: a second allocator alive in the same process whose pool is the upper half of this one's (same
+	// block size, another base): what one of them is asked must not leak into the other
+	nb     allocators.Allocator
+	nbPool *model.Pool
+	nbOut  map[uint64]bool
 }
 
 func (r *allocRun) tr(format string, a ...any) {
@@ -211,6 +228,10 @@ func (allocEngine) Run(ctx *fw.Ctx, cs any) {
 		probeHugeV6(ctx, c)
 		return
 	}
+	if c.Probe == "v4-mass-release" {
+		probeMassReleaseV4(ctx, c)
+		return
+	}
 	if c.Probe == "v6-unrepresentable" {
 		probeUnrepresentableV6(ctx, c)
 		return
@@ -231,11 +252,31 @@ func (allocEngine) Run(ctx *fw.Ctx, cs any) {
 		r.viol("C05", "constructor-rejects-valid-pool", "constructor failed: %v", err)
 		return
 	}
+	if r.pool.N >= 4 && r.pool.N <= 1<<20 && r.pool.N%2 == 0 && c.Seed%4 == 1 {
+		half := r.pool.N / 2
+		hb := r.pool.BlockBase(int64(half))
+		r.nbPool = &model.Pool{V4: c.V4, Start: hb, N: half, Page: r.pool.Page}
+		var nerr error
+		if c.V4 {
+			r.nb, nerr = bitmap.NewIPv4Allocator(r.pool.IP(hb), net.ParseIP(c.End).To4())
+		} else {
+			r.nb, nerr = bitmap.NewBitmapAllocator(net.IPNet{IP: r.pool.IP(hb), Mask: net.CIDRMask(c.PoolLen+1, 128)}, c.Page)
+		}
+		if nerr != nil {
+			r.nb = nil
+		} else {
+			r.nbOut = map[uint64]bool{}
+			ctx.Count("alloc.histories_with_a_neighbour_allocator", 1)
+		}
+	}
 	for i := 0; i < c.Ops; i++ {
 		if r.rng.Intn(100) < 62 {
 			r.doAlloc()
 		} else {
 			r.doFree()
+		}
+		if r.nb != nil && r.rng.Intn(3) == 0 {
+			r.neighbourOp()
 		}
 	}
 	r.audit()
@@ -264,6 +305,50 @@ func (allocEngine) Run(ctx *fw.Ctx, cs any) {
 			ctx.Sample(p, map[string]any{"pool": r.desc(), "start": c.Start, "ops": c.Ops, "last_ops": r.trace, "outstanding_at_end": len(r.out)})
 		}
 	}
+}
+
+// neighbourOp: one address of the upper half is first named to this allocator (a Free that must fail when
+// the block is not outstanding here, otherwise a hint on a taken block is skipped) and right afterwards, as
+// the very same bytes, to the neighbour: there it is freed when the neighbour holds it (must succeed) or
+// hinted (the neighbour must return exactly that block).
+func (r *allocRun) neighbourOp() {
+	half := r.pool.N / 2
+	nbIdx := uint64(r.rng.Int63n(int64(half)))
+	b := half + nbIdx
+	ip := r.pool.IP(r.pool.BlockBase(int64(b)))
+	mask := net.CIDRMask(r.pool.Page, 128)
+	if r.c.V4 {
+		mask = net.CIDRMask(32, 32)
+	}
+	if !r.out[b] && !r.polluted {
+		if err := r.a.Free(net.IPNet{IP: append(net.IP(nil), ip...), Mask: mask}); err == nil {
+			r.viol("C06", "free-accepts-not-outstanding:neighbour-probe", "Free(%s) succeeded although block %d is not outstanding", ip, b)
+			r.polluted = true
+		}
+	}
+	r.ctx.Count("alloc.neighbour_ops", 1)
+	if r.nbOut[nbIdx] {
+		if err := r.nb.Free(net.IPNet{IP: ip, Mask: mask}); err != nil {
+			r.viol("C06", "free-rejects-outstanding:neighbour-allocator", "a second allocator on the upper half of the pool (base %s, %d blocks) holds %s; right after the same address was named to the first allocator, Free(%s) on the second failed: %v", r.nbPool.IP(r.nbPool.Start), half, ip, ip, err)
+		}
+		delete(r.nbOut, nbIdx)
+		return
+	}
+	got, err := r.nb.Allocate(net.IPNet{IP: ip, Mask: mask})
+	if err != nil {
+		r.viol("C07", "hint-not-honoured:neighbour-allocator", "a second allocator on the upper half of the pool (base %s, %d blocks, %d outstanding): Allocate(hint %s) on a free block failed: %v", r.nbPool.IP(r.nbPool.Start), half, len(r.nbOut), ip, err)
+		return
+	}
+	if !got.IP.Equal(ip) {
+		r.viol("C07", "hint-not-honoured:neighbour-allocator", "a second allocator on the upper half of the pool (base %s, %d blocks): right after %s was named to the first allocator, Allocate(hint %s) on the second - the block is free there - returned %s", r.nbPool.IP(r.nbPool.Start), half, ip, ip, got.IP)
+		if v, ok := r.nbPool.AddrValue(got.IP); ok {
+			if idx, in, _ := r.nbPool.Locate(v); in {
+				r.nbOut[idx] = true
+			}
+		}
+		return
+	}
+	r.nbOut[nbIdx] = true
 }
 
 // pickBlock returns a block index that is (free | outstanding) per the model.
@@ -793,6 +878,76 @@ func probeFullV4(ctx *fw.Ctx, c *allocCase) {
 		seen[got.IP.String()] = true
 	}
 	ctx.Count("alloc.probe.fullrange.ok", 1)
+}
+
+func probeMassReleaseV4(ctx *fw.Ctx, c *allocCase) {
+	s, e := net.ParseIP(c.Start).To4(), net.ParseIP(c.End).To4()
+	sv := binary.BigEndian.Uint32(s)
+	n := int(binary.BigEndian.Uint32(e)-sv) + 1
+	a, err := bitmap.NewIPv4Allocator(s, e)
+	if err != nil {
+		ctx.Viol("C05", "constructor-rejects-valid-pool", "IPv4 [%s,%s]: %v", c.Start, c.End, err)
+		return
+	}
+	rng := rand.New(rand.NewSource(c.Seed))
+	desc := fmt.Sprintf("IPv4 [%s,%s] N=%d", c.Start, c.End, n)
+	held := make([]bool, n)
+	alloc := func(phase string) bool {
+		got, err := a.Allocate(net.IPNet{})
+		if err != nil {
+			return false
+		}
+		ip := got.IP.To4()
+		if ip == nil || binary.BigEndian.Uint32(ip) < sv || int(binary.BigEndian.Uint32(ip)-sv) >= n {
+			ctx.Viol("C05", "alloc-not-a-block", "%s (%s): Allocate returned %v", desc, phase, got.IP)
+			return false
+		}
+		off := int(binary.BigEndian.Uint32(ip) - sv)
+		if held[off] {
+			ctx.Viol("C04", "double-handout", "%s (%s): %s returned while it is outstanding", desc, phase, ip)
+			return false
+		}
+		held[off] = true
+		return true
+	}
+	for i := 0; i < n; i++ {
+		if !alloc("filling") {
+			ctx.Viol("C05", "alloc-fails-while-free", "%s: allocation #%d of %d failed while filling the fresh range", desc, i+1, n)
+			return
+		}
+	}
+	// release most of it: a random subset in random order, or everything above a low-water mark, top down
+	keep := rng.Intn(n - 65537)
+	order := rng.Perm(n)
+	if rng.Intn(2) == 0 {
+		for i := range order {
+			order[i] = n - 1 - i
+		}
+	}
+	released := 0
+	for _, off := range order[:n-keep] {
+		if err := a.Free(net.IPNet{IP: u32ip(sv + uint32(off)), Mask: net.CIDRMask(32, 32)}); err != nil {
+			ctx.Viol("C06", "free-rejects-outstanding:mass-release", "%s: Free(%s) of an outstanding address failed: %v", desc, u32ip(sv+uint32(off)), err)
+			return
+		}
+		held[off] = false
+		released++
+	}
+	again := 0
+	for again < released && alloc("refilling") {
+		again++
+	}
+	ctx.Eval("C05", int64(n+released+again))
+	ctx.Count("alloc.probe.mass_release", 1)
+	ctx.Count("alloc.probe.mass_release_addresses_released", int64(released))
+	if again != released {
+		ctx.Viol("C05", "alloc-fails-while-free", "%s: the range was filled, %d addresses were released in one go (%d kept), then only %d allocations succeeded: Allocate reports exhaustion while %d addresses are free", desc, released, keep, again, released-again)
+		return
+	}
+	if _, err := a.Allocate(net.IPNet{}); err == nil {
+		ctx.Viol("C05", "capacity-mismatch", "%s: one more allocation than the range has addresses succeeded", desc)
+	}
+	ctx.Nontrivial("C05", "mass-release/"+desc)
 }
 
 // scribble overwrites a buffer the engine itself created for one call (never one it was given).
